@@ -67,9 +67,10 @@ def stepV (k : AggKind) (v : Value) (c : Cell) : Outcome Cell :=
   | .stringAgg _ delim =>
     match v with
     | .text s =>
-      match c.val.getD (.text []) with
-      | .text cur => .ok { c with val := some (.text (if cur.isEmpty then s else cur ++ delim ++ s)) }
-      | other => .ok { c with val := some other }
+      match c.val with
+      | none => .ok { c with val := some (.text s) }
+      | some (.text cur) => .ok { c with val := some (.text (cur ++ delim ++ s)) }
+      | some other => .ok { c with val := some other }
     | .null => .ok c
     | _ => .error .expectedStringValue
 
